@@ -92,7 +92,46 @@ NODRIVER = {"HTTP.handleQuit": "calls log.Fatalf", "HTTP.handleJoin": "changes t
             "main.dumpLogToDisk1": "writes text logs (flag off by default)"}
 
 
+# Driver aliases of harness/race/race_test.go (operation -> operation whose driver runs it);
+# used to decide pair-level exclusions on what is really executed.  Keep in sync.
+ALIAS = {}
+for _t, _names in {
+    "FSM.Apply": ["IRCServer.ProcessMessage", "IRCServer.UpdateLastClientMessageID", "IRCServer.SetLastProcessed",
+                  "IRCServer.MaybeDeleteSession", "IRCServer.Banned", "IRCServer.CreateSession", "OutputStream.Add",
+                  "LevelDBStore.StoreLogProto", "LevelDBStore.StoreLog", "LevelDBStore.StoreLogs",
+                  "LevelDBStore@log.StoreLog", "LevelDBStore@log.StoreLogs", "HTTP.ApplyMessageWait", "HTTP.applyMessageWait"],
+    "FSM.Snapshot": ["robustSnapshot.Persist", "OutputStream.Delete", "LevelDBStore.DeleteRange", "LevelDBStore@log.DeleteRange"],
+    "FSM.Restore": ["IRCServer.Unmarshal", "HTTP.ReplaceState", "LevelDBStore.Close", "OutputStream.Close",
+                    "LevelDBStore.WriteBatch", "LevelDBStore.ConvertToProto"],
+    "HTTP.handleStatusGetMessage": ["GetMessagesStats.NickWithFallback", "GetMessagesStats.StartedAndRelative", "HTTP.copyGetMessagesRequests"],
+    "HTTP.handlePostConfig": ["HTTP.applyConfig", "HTTP.configRevision"],
+    "HTTP.handlePostMessage": ["HTTP.DispatchPublic", "HTTP.session", "HTTP.sessionOrProxy", "HTTP.ircServer", "HTTP.output", "HTTP.ircStore"],
+    "HTTP.handleCreateSession": ["HTTP.handleDeleteSession"],
+    "HTTP.handleGetMessages": ["HTTP.getMessages", "HTTP.pingTicker", "HTTP.setGetMessagesRequests", "HTTP.deleteGetMessagesRequests",
+                               "HTTP.pingMessage", "HTTP.partitioned", "OutputStream.InterruptGetNext"],
+    "main.mainLoop": ["IRCServer.ExpireSessions"],
+}.items():
+    for _n in _names:
+        ALIAS[_n] = _t
+
+
+def route(a, b):
+    """Which harness runs the pair: both operations on ONE standalone store / stream
+    object (no FSM.Restore involved, so Close x everything can run), or the full node."""
+    for pre, r in (("LevelDBStore.", "store"), ("LevelDBStore@log.", "store"), ("OutputStream.", "stream")):
+        if a.startswith(pre) and b.startswith(pre):
+            return r
+    return "main"
+
+
 def unsafe_pair(a, b):
+    # GetNext locks and unlocks messagesMu by hand: the panic of a lookup in a closed
+    # database (recovered by the harness, fatal in the real process) leaves the read
+    # lock held and everything after it blocks.
+    if {a, b} == {"OutputStream.Close", "OutputStream.GetNext"}:
+        return True
+    if route(a, b) != "main":
+        return False
     for x, y in ((a, b), (b, a)):
         if x in RESTORERS and (y in LONGPOLL or y in STOREUSERS or y in SNAPSHOTTERS):
             return True
@@ -264,11 +303,22 @@ def repo_frame(frames):
 
 # --------------------------------------------------------------------------- harness
 
-def build_harness(ctx, name, extra=None):
-    ov = ctx.harness_overlay("", "race", extra=extra)
-    binp = os.path.join(ctx.sub("bin"), "race-%s.test" % name)
-    ctx.go_build_test(".", ov, binp, tags=None, race=True, timeout=1500)
+HARNESSES = {"main": ("", "race", "."), "store": ("internal/raftstore", "race/raftstore", "./internal/raftstore"),
+             "stream": ("internal/outputstream", "race/outputstream", "./internal/outputstream")}
+
+
+def build_harness(ctx, name, extra=None, which="main"):
+    pkgrel, hdir, pkg = HARNESSES[which]
+    ov = ctx.harness_overlay(pkgrel, hdir, extra=extra)
+    binp = os.path.join(ctx.sub("bin"), "race-%s-%s.test" % (which, name))
+    ctx.go_build_test(pkg, ov, binp, tags=None, race=True, timeout=1500)
     return binp
+
+
+def build_harnesses(ctx, name):
+    with concurrent.futures.ThreadPoolExecutor(max_workers=3) as ex:
+        futs = {w: ex.submit(build_harness, ctx, name, None, w) for w in HARNESSES}
+        return {w: f.result() for w, f in futs.items()}
 
 
 def run_plan(ctx, binp, jobs, tag, timeout):
@@ -276,7 +326,7 @@ def run_plan(ctx, binp, jobs, tag, timeout):
     plan = os.path.join(d, "plan.json")
     with open(plan, "w") as fh:
         json.dump({"seed": ctx.seed, "jobs": jobs}, fh)
-    rc, out = ctx.run_bin([binp, "-test.run", "^TestVerifRace$", "-test.timeout", "%ds" % timeout],
+    rc, out = ctx.run_bin([binp, "-test.run", "^TestVerifRace", "-test.timeout", "%ds" % timeout],
                           env={"VERIF_RACE_PLAN": plan, "VERIF_SCRATCH": d, "GORACE": "halt_on_error=0 history_size=3",
                                "GOMAXPROCS": "4"},
                           timeout=timeout + 60, cwd=d)
@@ -338,6 +388,18 @@ class Model:
                     if a["class"] == cls:
                         res.update(a["fns"])
         return res
+
+    def nests_config_before_sessions(self, op):
+        """the operation acquires sessionsMu while holding ConfigMu (deadlocks against
+        cmdGline, which takes them the other way round)"""
+        for name in (op, ALIAS.get(op, op)):
+            o = self.by_name.get(name)
+            for sg in (o["segs"] if o else []):
+                ls = [l[0] for l in (sg["locks"] or [])]
+                if "IRCServer.ConfigMu" in ls and "IRCServer.sessionsMu" in ls and \
+                        ls.index("IRCServer.ConfigMu") < ls.index("IRCServer.sessionsMu"):
+                    return True
+        return False
 
     def locks(self, op, seg):
         for s in self.by_name[op]["segs"]:
@@ -468,22 +530,27 @@ def run(ctx):
     mut_src = selftest_model(ctx, binp)
 
     # ---- harness
-    ctx.log("building the race harness")
-    hbin = build_harness(ctx, "tree")
+    ctx.log("building the race harnesses")
+    hbins = build_harnesses(ctx, "tree")
+    hbin = hbins["main"]
     jobs = []
     jid = 0
     skipped_nodriver = set()
 
     def add(a, b, iters, kind):
         nonlocal jid
-        for x in (a, b):
-            if x in NODRIVER:
-                skipped_nodriver.add(x)
-                return
+        rt = route(a, b)
+        if rt == "main":
+            for x in (a, b):
+                if x in NODRIVER:
+                    skipped_nodriver.add(x)
+                    return
         if unsafe_pair(a, b):
             return
         jid += 1
-        jobs.append({"id": jid, "a": a, "b": b, "iters": iters, "kind": kind})
+        # GLINE (in-place writes of Config.Banned) only when neither side nests ConfigMu -> sessionsMu
+        gl = rt == "main" and not model.nests_config_before_sessions(a) and not model.nests_config_before_sessions(b)
+        jobs.append({"id": jid, "a": a, "b": b, "iters": iters, "kind": kind, "route": rt, "gline": gl})
 
     if ctx.replay:
         with open(ctx.replay) as fh:
@@ -492,7 +559,12 @@ def run(ctx):
     else:
         for a, b in cand_pairs:
             add(a, b, 400 if quick else 2000, "candidate")
-        allp = [p for p in model.pairs() if p not in set(cand_pairs)]
+        rest = [p for p in model.pairs() if p not in set(cand_pairs)]
+        # all pairs on one store / one stream object always run (few and cheap)
+        for a, b in rest:
+            if route(a, b) != "main":
+                add(a, b, 60 if quick else 200, "sweep")
+        allp = [p for p in rest if route(*p) == "main"]
         rng = random.Random(ctx.seed)
         rng.shuffle(allp)
         if quick:
@@ -501,8 +573,15 @@ def run(ctx):
             add(a, b, 30 if quick else 60, "sweep")
     ctx.cov["jobs_candidate"] = sum(1 for j in jobs if j["kind"] == "candidate")
     ctx.cov["jobs_sweep"] = sum(1 for j in jobs if j["kind"] == "sweep")
-    ctx.log("running %d jobs under the race detector" % len(jobs))
-    out = run_jobs(ctx, hbin, jobs, "main", nproc=4 if quick else 6, timeout=900 if quick else 2400)
+    ctx.cov["jobs_store_level"] = sum(1 for j in jobs if j["route"] == "store")
+    ctx.cov["jobs_stream_level"] = sum(1 for j in jobs if j["route"] == "stream")
+    ctx.cov["jobs_with_gline"] = sum(1 for j in jobs if j["gline"])
+    ctx.log("running %d jobs under the race detector (%d on a standalone store, %d on a standalone stream)" % (
+        len(jobs), ctx.cov["jobs_store_level"], ctx.cov["jobs_stream_level"]))
+    with concurrent.futures.ThreadPoolExecutor(max_workers=3) as ex:
+        futs = [ex.submit(run_jobs, ctx, hbins[w], [j for j in jobs if j["route"] == w], w,
+                          (4 if quick else 6) if w == "main" else 1, (900 if quick else 2400) if w == "main" else 400) for w in HARNESSES]
+        out = "\n".join(f.result() for f in futs)
     ran = len(re.findall(r"VERIF-JOB-END ", out))
     if os.environ.get("VERIF_C20_KEEP"):
         with open(os.environ["VERIF_C20_KEEP"], "w") as fh:
